@@ -145,10 +145,16 @@ class CartesianProduct(Constructor[CombinatorialClassType, CombinatorialObjectTy
     ) -> sympy.Eq:
         res = 1
         for extra_parameters, rhs_func in zip(self.extra_parameters, rhs_funcs):
-            res *= rhs_func.subs(
-                {child: parent for parent, child in extra_parameters.items()},
-                simultaneous=True,
-            )
+            # several parent parameters may follow the same child parameter
+            subs: Dict[str, sympy.Expr] = {}
+            for parent, child in extra_parameters.items():
+                subs[child] = subs.get(child, 1) * sympy.var(parent)
+            # a parameter of the child that no parameter of the parent is mapped to
+            # is summed out by get_terms: its variable is set to 1
+            for arg in rhs_func.args[1:]:
+                if isinstance(arg, sympy.Symbol) and arg.name not in subs:
+                    subs[arg.name] = sympy.Integer(1)
+            res *= rhs_func.subs(subs, simultaneous=True)
         return sympy.Eq(lhs_func, res)
 
     def reliance_profile(self, n: int, **parameters: int) -> RelianceProfile:
